@@ -81,6 +81,7 @@ def check(ctx):
     # declarations with their qualifiers in every order (mostly not SystemVerilog): whatever is accepted must tile
     srcs += svgen.qualifier_orders()
     srcs += svgen.attribute_zoo()
+    srcs += svgen.literal_zoo()
     ctx.cov["deepened"] = deep
     cases, meta = [], {}
     for i, (k, src) in enumerate(srcs):
